@@ -44,6 +44,36 @@ def step (s : DState) (line : String) : DState × String :=
       let r : MatchOut := ⟨c, u, hr, rem⟩
       (s, if C05.ok o q r && C05.conserves o q r then "J C05 ok" else "J C05 bad rule")
     | _, _, _, _, _, _ => bad s line
+  | ["judge.C01", v, h, c, l] =>
+    match v.toNat?, h.toNat?, c.toNat?, parseList parseOrder l with
+    | some v, some h, some c, some l => (s, if C01.ok v h c l then "J C01 ok" else "J C01 bad aggregates-differ-from-listing")
+    | _, _, _, _ => bad s line
+  | ["judge.C02", q, taker, price, gprev, txs, rem, complete, filled, pre, post] =>
+    match q.toNat?, parseId taker, price.toNat?, gprev.toNat?, parseList parseTx txs, rem.toNat?,
+        parseBool complete, parseList parseId filled, parseList parseOrder pre, parseList parseOrder post with
+    | some q, some taker, some price, some gprev, some txs, some rem, some complete, some filled, some pre, some post =>
+      let o : MatchObs := ⟨q, taker, price, gprev, ⟨taker, txs, rem, complete, filled⟩, pre, post⟩
+      (s, if C02.ok o then "J C02 ok" else "J C02 bad accounting")
+    | _, _, _, _, _, _, _, _, _, _ => bad s line
+  | ["judge.C06", q, txs, rem, pre, post] =>
+    match q.toNat?, parseList parseTx txs, rem.toNat?, parseList parseOrder pre, parseList parseOrder post with
+    | some q, some txs, some rem, some pre, some post =>
+      (s, if C06.ok q ⟨⟨false, 0⟩, txs, rem, rem == 0, []⟩ pre post then "J C06 ok" else "J C06 bad displayed-liquidity-not-exhausted")
+    | _, _, _, _, _ => bad s line
+  | "judge.C07" :: price :: pre :: post :: out :: upd =>
+    let outv : Option UpdOut :=
+      if out == "err=SamePrice" then some .errSamePrice
+      else if out.startsWith "ok=" then (parseOptOrder (out.drop 3).toString).map UpdOut.ok
+      else none
+    match price.toNat?, parseList parseOrder pre, parseList parseOrder post, outv, parseUpdate upd with
+    | some price, some pre, some post, some out, some u =>
+      (s, if C07.ok price u out pre post then "J C07 ok" else "J C07 bad update-semantics")
+    | _, _, _, _, _ => bad s line
+  | ["judge.C15", price, st, na, nr, se] =>
+    match price.toNat?, (st.splitOn ",").mapM String.toNat?, na.toNat?, nr.toNat?, se.toNat? with
+    | some price, some [a, r, e, q, v], some na, some nr, some se =>
+      (s, if C15.ok price ⟨a, r, e, q, v⟩ na nr se then "J C15 ok" else "J C15 bad statistics-differ-from-events")
+    | _, _, _, _, _ => bad s line
   | "atx" :: q :: qs =>
     match q.toNat?, qs.mapM String.toNat? with
     | some q, some qs =>
@@ -72,6 +102,7 @@ def step (s : DState) (line : String) : DState × String :=
       let (l, out) := s.lvl.update u
       ({ s with lvl := l }, "upd " ++ showUpd out)
     | none => bad s line
+  | ["read", _] => (s, "read")
   | ["state"] => (s, "state " ++ showState s.lvl)
   | [""] => (s, "")
   | _ => bad s line
